@@ -185,6 +185,44 @@ pub fn run(tier: Tier) -> i32 {
             }
             *n_variants.lock().unwrap() += (n_perms - 1) as u64;
         }
+        // YAML has two file extensions: which one each file carries is not part of the data (every locale but the
+        // default on the other extension; alternating over the files)
+        if fmt == Format::Yaml {
+            let base_cross = dump(&base, true);
+            for pattern in 0..2usize {
+                if p.materialise(&dir, default_opts()).is_err() {
+                    continue;
+                }
+                let default = p.cfg.effective_locales().first().cloned().unwrap_or_default();
+                let mut k = 0usize;
+                let mut renamed = 0;
+                for (ns, loc) in p.files.keys() {
+                    k += 1;
+                    let flip = if pattern == 0 { *loc != default } else { k % 2 == 0 };
+                    if !flip {
+                        continue;
+                    }
+                    let ldir = dir.join(p.cfg.locales_dir.clone().unwrap_or_else(|| "locales".to_string()));
+                    let from = match ns {
+                        Some(ns) => ldir.join(loc).join(format!("{ns}.yaml")),
+                        None => ldir.join(format!("{loc}.yaml")),
+                    };
+                    if from.exists() && std::fs::rename(&from, from.with_extension("yml")).is_ok() {
+                        renamed += 1;
+                    }
+                }
+                if renamed == 0 {
+                    continue;
+                }
+                let d = dump(&parse_dir(&dir), true);
+                rep.eval(1);
+                *n_variants.lock().unwrap() += 1;
+                if d != base_cross {
+                    let (a, b) = first_diff(&base_cross, &d);
+                    rep.violation(format!("C10/yaml-extensions: the same files with some of them named .yml give another result: {a} vs {b} :: {}", vmodel::report::truncate(&p.describe(), 300)), json!({"base_dump": base_cross, "variant_dump": d}));
+                }
+            }
+        }
         // repeated run in the same process
         let again = dump_repeat(&run_project(p, &dir, default_opts()));
         if again != bd_repeat {
